@@ -29,6 +29,8 @@ func probeDesign() *m.Design {
 	add("tagged", rt.Obj(rt.Fld("a", m.Prim(m.String), false), rt.Fld("id", m.Prim(m.Int32), false)),
 		&m.Response{Status: 201, TagName: "a", TagValue: "special", Headers: []m.Mapping{{Attr: "id", Wire: "X-C"}}},
 		&m.Response{Status: 200, Headers: []m.Mapping{{Attr: "id", Wire: "X-C"}}})
+	d.Types = append(d.Types, &m.UserType{Name: "Node", Var: "v2", Attr: rt.Obj(rt.Fld("id", m.Prim(m.Boolean), true), rt.Fld("c", m.UserRef("Node"), false))})
+	add("recur", m.UserRef("Node"), &m.Response{Status: 200, Headers: []m.Mapping{{Attr: "id", Wire: "X-A"}}})
 	d.Services = []*m.Service{s}
 	return d
 }
@@ -63,6 +65,10 @@ func TestProbes(t *testing.T) {
 	rt.Probe("C03-empty-string-is-absent", func() (bool, string) {
 		o := call("empty", value.Object(value.Field{N: "h", V: value.Str("")}))
 		return o.ClientErr == nil && !strings.Contains(o.Result.Canon(), `H:""`), `result {h:""} in header X-H: client got ` + o.Result.Canon()
+	})
+	rt.Probe("C03-recursive-result-header-attr-lost-in-nested", func() (bool, string) {
+		o := call("recur", value.Object(value.Field{N: "id", V: value.Bool(true)}, value.Field{N: "c", V: value.Object(value.Field{N: "id", V: value.Bool(true)})}))
+		return o.ClientErr != nil || !strings.Contains(o.Result.Canon(), "C:{ID:true}"), "result {id:true,c:{id:true}} of recursive type Node with Header(id): client got " + o.Result.Canon() + errText(o)
 	})
 	rt.Probe("C03-tagged-response-optional-header-nil-deref", func() (bool, string) {
 		o := call("tagged", value.Object(value.Field{N: "a", V: value.Str("special")}))
